@@ -1349,7 +1349,7 @@ func c16genAll(c *h.Ctx, yield func(*h.Case)) {
 		op("addb %s %s", svcs[0], c16hex(bucketPool[r.Intn(len(bucketPool))]))
 		lookFors := []map[string][][]byte{{}, {}, {}}
 		lookFor := lookFors[0]
-		n := 4 + r.Intn(c.Pick(22, 50))
+		n := 4 + r.Intn(b7Pick(c, 22, 50))
 		restartEvery := 12
 		if mode != "" {
 			restartEvery = 6
@@ -1618,30 +1618,30 @@ func c16genAll(c *h.Ctx, yield func(*h.Case)) {
 	op("load c16a %s", kA)
 	yield(cs)
 
-	for i := 0; i < c.Pick(700, 8000); i++ {
+	for i := 0; i < b7Pick(c, 700, 8000) && !b7SearchOver(); i++ {
 		history("premise", c16premise, false, "")
 	}
-	for i := 0; i < c.Pick(450, 5500); i++ {
+	for i := 0; i < b7Pick(c, 450, 5500) && !b7SearchOver(); i++ {
 		history("premise-concurrent", c16premise, true, "")
 	}
-	for i := 0; i < c.Pick(350, 4500); i++ {
+	for i := 0; i < b7Pick(c, 350, 4500) && !b7SearchOver(); i++ {
 		history("collide", append(append([]string{}, c16premise[:2]...), c16collide...), false, "")
 	}
-	for i := 0; i < c.Pick(120, 1500); i++ {
+	for i := 0; i < b7Pick(c, 120, 1500) && !b7SearchOver(); i++ {
 		history("legacy-file", c16premise, r.Intn(4) == 0, "legacy")
 	}
-	for i := 0; i < c.Pick(100, 1200); i++ {
+	for i := 0; i < b7Pick(c, 100, 1200) && !b7SearchOver(); i++ {
 		history("two-servers-one-dir", c16premise, r.Intn(4) == 0, "two")
 	}
-	for i := 0; i < c.Pick(60, 700); i++ {
+	for i := 0; i < b7Pick(c, 60, 700) && !b7SearchOver(); i++ {
 		history("tmp-dir", c16premise, false, "tmp")
 	}
-	for i := 0; i < c.Pick(30, 300); i++ {
+	for i := 0; i < b7Pick(c, 30, 300) && !b7SearchOver(); i++ {
 		history("default-data-path", c16premise, false, "default")
 	}
 	// big values: buckets that are no longer stored inline, pages that are freed and reused
 	// while services keep what they loaded
-	for i := 0; i < c.Pick(60, 500); i++ {
+	for i := 0; i < b7Pick(c, 60, 500) && !b7SearchOver(); i++ {
 		start("premise-big-values")
 		svcs := c16premise[:2+r.Intn(2)]
 		op("start %s", strings.Join(svcs, ","))
